@@ -357,10 +357,22 @@ def check_thread_safe_vector(chk, lib):
                         return C.ref_key(o["a"][0])
                 return None
 
+            # the outcome of a lock attempt kept in a bool first: `acquired = _locks[index].lock(); ... while (!acquired)`
+            flag_locks = {}
+            for s_ in C.walk_stmt(fn["body"]):
+                if s_.get("k") == "Bin" and s_.get("op") == "=" and lock_target(s_["b"]) is not None and C.ref_key(s_["a"]):
+                    flag_locks[C.ref_key(s_["a"])] = lock_target(s_["b"])
+                if s_.get("k") == "Decl":
+                    for d_ in s_["d"]:
+                        if d_.get("init") is not None and lock_target(d_["init"]) is not None:
+                            flag_locks[("local", d_["id"], d_["n"])] = lock_target(d_["init"])
+
             def tr(node, st):
                 confirmed, counted = st
                 if node.kind == "branch":
                     t = lock_target(node.ast)
+                    if t is None and C.strip_casts(node.ast).get("k") == "Ref" and C.ref_key(node.ast) in flag_locks:
+                        t = flag_locks[C.ref_key(node.ast)]
                     if t is not None:
                         return [(True, (t, counted)), (False, (None, counted))]
                 if node.kind in ("stmt", "decl", "return") and node.ast.get("k") != "Abort":
@@ -430,8 +442,15 @@ def check_thread_safe_vector(chk, lib):
     for fn in ms.get("free_element", []):
         chk.analysed(function=fn["full"])
         rel = [x for x in C.walk_stmt(fn["body"]) if C.is_call(x, name="unlock")]
-        dec = [x for x in C.walk_stmt(fn["body"]) if C.is_call(x, name="pre_decrement") and
-               C.member_name(x.get("obj")) == "_number_taken"]
+        dec = [x for x in C.walk_stmt(fn["body"]) if C.member_name(x.get("obj")) == "_number_taken" and
+               (C.is_call(x, name="pre_decrement") or C.is_call(x, name="post_decrement") or
+                ((C.is_call(x, name="pre_subtract") or C.is_call(x, name="post_subtract")) and x.get("a") and
+                 C.const_int(x["a"][0]) == 1))]
+        seen_dec = []
+        for x in dec:
+            if not any(x is y for y in seen_dec):
+                seen_dec.append(x)
+        dec = seen_dec
         branches = [s for s in C.walk_stmt(fn["body"]) if s.get("k") in ("If", "For", "While")]
         n += 1
         chk.require(len(rel) == 1 and len(dec) == 1 and not branches, "V3",
